@@ -113,6 +113,9 @@ func genC04Case(t *rapid.T) C04Case {
 	c := C04Case{Kind: rapid.SampledFrom([]string{"post", "post", "redirect", "attrquery", "metadata"}).Draw(t, "kind"), Host: rapid.SampledFrom(reqHosts).Draw(t, "host")}
 	idp := genIdPConfig(t, worldOpts{issuerModes: []string{"static", "host"}})
 	spec := world.Spec{IdP: idp}
+	// a storage that keeps one response-signing key per issuer (tenant): what is signed for a request must be signed with the
+	// key whose certificate is published for that request's issuer
+	spec.KeysPerIssuer = rapid.IntRange(0, 2).Draw(t, "keysperissuer") == 0
 	sp := stdSP(0)
 	switch c.Kind {
 	case "attrquery":
